@@ -101,3 +101,18 @@ Definition c04_file_verdict (k : c06_case) : N :=
     end in
   if go start_lib 0 (x_events k) then 0 else 2.
 Definition c04_file_verdicts (l : list c06_case) := nonzero (map c04_file_verdict l).
+
+(* ---- W3: the junction clause on file-source events.  c04_file_verdict reads the cursor fields only; "when an Undo event
+   names a junction block, that block is ... the block the consumer's chain rests on once the batch of undos is applied" was
+   evaluated for Forkable events (c04_b) and hub bursts (junc_walk) but, for the events a file source delivers when it resumes
+   from a cursor on a fork, only by C06's own checker.  Same walk as for bursts, from the consumer's stack at the cursor
+   (the live events up to and including the cursor's event); c04_file_verdict itself is left as it is. *)
+Definition c04_file_junction_ok (k : c06_case) : bool :=
+  match cons_fold cons0 (x_live k) with
+  | Some ck0 => junc_walk (S (length (x_events k))) (cs_stack ck0) (x_events k)
+  | None => true
+  end.
+Definition c04_file_verdict_w3 (k : c06_case) : N :=
+  if x_err k =? 4 then 0 else
+  if (c04_file_verdict k =? 0) && c04_file_junction_ok k then 0 else 2.
+Definition c04_file_verdicts_w3 (l : list c06_case) := nonzero (map c04_file_verdict_w3 l).
